@@ -28,6 +28,7 @@ PROFILES = {
     "join2": prof2("MovesJoin", 2, [[1, 2], [1, 4], [4, 2], [6, 2]]),
     "joins3": prof2("MovesJoinS", 3, [[1, 2], [6, 2]]),
     "joins4": prof2("MovesJoinS", 4, [[1, 2]]),
+    "joinh4": prof2("MovesJoinH", 4, [[1, 2], [6, 2]]),
     "join3": prof2("MovesJoin", 3, [[1, 2], [6, 2]]),
     "union2": prof2("MovesUnion", 2, [[1, 3], [1, 4], [3, 1], [4, 4]]),
     "ref3": prof2("MovesRef", 3, [[1, 2], [6, 2]]),
@@ -72,8 +73,8 @@ CHECKS = {
     "C06": dict(
         level="model_checking",
         clauses=GEN_CLAUSES_SPEC | {"errclass"},
-        phases=dict(quick=[dict(profile="join2"), dict(profile="joins3")],
-                    thorough=[dict(profile="join2"), dict(profile="join3"), dict(profile="joins4")]),
+        phases=dict(quick=[dict(profile="join2"), dict(profile="joins3"), dict(profile="joinh4")],
+                    thorough=[dict(profile="join2"), dict(profile="join3"), dict(profile="joins4"), dict(profile="joinh4")]),
     ),
     "C07": dict(
         level="model_checking",
@@ -120,7 +121,7 @@ CHECKS = {
     "C09": dict(
         level="model_checking",
         clauses=GEN_CLAUSES_SPEC | {"errclass", "getname"},
-        phases=dict(quick=[dict(profile="ref3")], thorough=[dict(profile="ref3"), dict(profile="ref4")]),
+        phases=dict(quick=[dict(profile="ref3"), dict(profile="joinh4")], thorough=[dict(profile="ref3"), dict(profile="ref4"), dict(profile="joinh4")]),
     ),
     "C12": dict(
         level="model_checking",
